@@ -74,6 +74,8 @@ class StopTheWorld(GCStrategy):
         pressure_multiplier: float = 3.0,
     ) -> None:
         self._base_pause_s = base_pause_s
+        if interval_s <= 0:
+            raise ValueError(f"interval_s must be > 0, got {interval_s}")
         self._interval_s = interval_s
         self._pressure_multiplier = pressure_multiplier
 
@@ -108,6 +110,8 @@ class ConcurrentGC(GCStrategy):
         interval_s: float = 2.0,
     ) -> None:
         self._pause_s = pause_s
+        if interval_s <= 0:
+            raise ValueError(f"interval_s must be > 0, got {interval_s}")
         self._interval_s = interval_s
 
     def pause_duration_s(self, heap_pressure: float) -> float:
